@@ -191,9 +191,12 @@ fn gen_name(r: &mut Rng) -> String {
 }
 
 fn gen_id(r: &mut Rng) -> String {
-    match r.below(6) {
+    match r.below(8) {
         0 | 1 => String::new(), // what passage and vanilla servers use
         2 => "passage".into(),
+        // ids that a "sanitising" constructor would alter: surrounding / inner whitespace, case, NUL
+        6 => (*r.pick(&[" lobby-1 ", "lobby-1\n", "\tlobby 1", " ", "Lobby-1", "lobby-1\0", "\u{a0}x\u{a0}"])).into(),
+        7 => format!("{}{}{}", r.pick(&["", " ", "\t", "\r\n"]), r.utf8(6), r.pick(&["", " ", "\n", "  "])),
         3 => r.utf8(12),
         4 => "id&serverId=0#".into(),
         _ => "a".repeat(*r.pick(&[1usize, 20, 55, 56, 64])),
